@@ -130,7 +130,9 @@ def flags_case(case):
     opts, lopts, incs, prefix = case
     root = scratch('verif-c17f-')
     try:
-        src = os.path.join(root, 'src')
+        # (a '#' in the source directory's own name whenever the prefix has
+        # one: both reach the .pc files as variable values)
+        src = os.path.join(root, 's#rc' if '#' in prefix else 'src')
         os.makedirs(src)
         open(os.path.join(src, 'f.c'), 'w').write('int f;\n')
         for d in incs:
@@ -350,7 +352,7 @@ def flag_cases(ck):
         incs = [w for w in grp if w.strip() and '/' not in w and '\\' not in w
                 and w not in ('.', '..') and not w.startswith('~')][:2]
         cases.append((opts, lopts, ['inc' + d for d in incs],
-                      rnd.choice(['/usr/local', '/opt/my app'])))
+                      rnd.choice(['/usr/local', '/opt/my app', '/opt/c#sdk'])))
     return cases
 
 
